@@ -8,6 +8,7 @@ import (
 	"encoding/json"
 	"fmt"
 	"os"
+	"os/exec"
 	"path/filepath"
 	"runtime/debug"
 	"sort"
@@ -109,6 +110,13 @@ type genOutcome struct {
 func genOnce(mem *MemFS, root string, order compile.VerifLinkOrder, o gen.Options, outDir string) (res genOutcome) {
 	defer os.RemoveAll(outDir)
 	defer func() {
+		if keep := os.Getenv("VERIF_C10_KEEP"); keep != "" {
+			// debugging aid: keep the last generated tree
+			os.RemoveAll(keep)
+			exec.Command("cp", "-r", outDir, keep).Run()
+		}
+	}()
+	defer func() {
 		if p := recover(); p != nil {
 			res.pan = fmt.Sprint(p) + "\n" + string(debug.Stack())
 			res.digest = "panic"
@@ -142,7 +150,7 @@ func genOnce(mem *MemFS, root string, order compile.VerifLinkOrder, o gen.Option
 func C10(c *core.Child) {
 	outDir := c.Arg("out", "/var/tmp/c10") + ".gen"
 	c.Loop(func(i uint64, r *core.Rand) {
-		o := idlm.SemOpts{MaxFiles: 5, MaxDefs: 6, Services: true, Constants: true, Defaults: true, Dirs: true, ForGen: true, GoAnns: true, Redact: true, PkgNameClash: true, ServiceBias: r.Chance(1, 2), ChainMode: r.Chance(1, 4), ManyTypes: r.Chance(1, 3)}
+		o := idlm.SemOpts{MaxFiles: 5, MaxDefs: 6, Services: true, Constants: true, Defaults: true, Dirs: true, ForGen: true, GoAnns: true, Redact: true, PkgNameClash: true, IncludeBias: true, ServiceBias: r.Chance(1, 2), ChainMode: r.Chance(1, 2), ManyTypes: r.Chance(1, 3)}
 		o.Off = offFromArgs(c)
 		p := idlm.GenProgram(r, o)
 		p.RenderAll(r, idlm.PlainLayout)
@@ -190,7 +198,7 @@ func C10(c *core.Child) {
 		}
 		nat := 8
 		if c.Tier == "quick" {
-			nat = 5
+			nat = 4
 		}
 		for k := 0; k < nat; k++ {
 			if !compare(genOnce(mem, root, nil, gopt, outDir), fmt.Sprintf("in-process natural order run %d", k+2), map[string]any{}) {
@@ -221,7 +229,16 @@ func C10(c *core.Child) {
 			c.Count("files_generated", int64(len(first.paths)))
 		}
 		// the parent compares this digest across separate processes
-		c.Data(fmt.Sprintf("case/%d", i), first.digest)
+		// the digest of the INPUT travels with the digest of the output: if two
+		// processes did not even draw the same program, that is a harness fault
+		var in []byte
+		for _, f := range p.Files {
+			in = append(in, f.Path...)
+			in = append(in, 0)
+			in = append(in, f.Text...)
+			in = append(in, 0)
+		}
+		c.Data(fmt.Sprintf("case/%d", i), fmt.Sprintf("%s input=%016x/%+v", first.digest, core.HashBytes(in), gopt))
 		if len(p.Files) > 0 {
 			c.Nontrivial(core.HashBytes([]byte(first.digest), []byte(p.Files[0].Text)))
 		}
